@@ -306,6 +306,10 @@ def c09_scope(tier):
     P.append(("relay-near-machines-row", 'Signal s = ("signal-A", 1);\nEntity a = place("small-lamp", 0, 1);\na.enable = s > 0;\nEntity b = place("small-lamp", 44, 1);\nb.enable = s > 1;\n'
               + "".join(f'Entity m{k} = place("assembling-machine-1", {6 + 7 * k}, 0);\n' for k in range(5))))
     P.append(("props", 'Entity a = place("small-lamp", 0, 0, {use_colors: 1});\nEntity b = place("inserter", 2, 0, {direction: 4});\n'))
+    P.append(("param-name-after-call", 'func lamp_at(int x, int y) {\n  Entity l = place("small-lamp", x, y);\n}\nfunc pair(int x, int y) {\n  lamp_at(x + 1, y);\n'
+              '  Entity k = place("small-lamp", x, y + 2);\n}\npair(3, 4);\nint x = 9;\nlamp_at(1, 1);\nEntity z = place("small-lamp", x, 8);\n'))
+    P.append(("far-user-poles", 'Signal s = ("signal-A", 1);\nEntity l = place("small-lamp", 0, 0);\nl.enable = s > 0;\nEntity p1 = place("small-electric-pole", 30, 4);\n'
+              'Entity p2 = place("medium-electric-pole", 40, 9);\nEntity p3 = place("big-electric-pole", 50, 20);\nEntity p4 = place("substation", 60, 30);\n'))
     # more than 500 entities switches the layout solver to component decomposition
     P.append(("more-than-500", "for i in 0..26 {\n  for j in 0..20 {\n    Entity l = place(\"small-lamp\", i, j);\n  }\n}\n"))
     if tier != "quick":
@@ -465,6 +469,11 @@ def c03_scope(tier):
     # a cell declared in a function body: every call owns its own cell (call = substitution)
     P.append(("cell-in-function", 'func keep(Signal d, Signal en) {\n  Memory m: "signal-M";\n  m.write(d | "signal-M", when=en > 0);\n  return m.read();\n}\n'
               + V + C + 'Signal w = ("signal-D", 7);\nSignal out = keep(v, c);\nSignal out2 = keep(w, c);\n', {"v": [5, 9], "c": [0, 1], "w": [7, -2]}))
+    P.append(("cell-in-function-3", 'func keep(Signal d, Signal en) {\n  Memory m: "signal-M";\n  m.write(d | "signal-M", when=en > 0);\n  return m.read();\n}\n'
+              + V + C + 'Signal w = ("signal-D", 7);\nSignal u = ("signal-E", 70);\nSignal out = keep(v, c);\nSignal out2 = keep(w, c);\nSignal out3 = keep(u, c);\n',
+              {"v": [5, 9], "c": [0, 1], "w": [7, -2], "u": [70, 30]}))
+    P.append(("enable-derived-with-read", V + C + M + 'Signal en = c > 0;\nm.write(v | "signal-M", when=en);\nSignal idle = 1 - en;\n'
+              'Signal shown = (m.read() * idle) | "signal-S";\nSignal out = m.read();\n', {"v": [5, 9], "c": [0, 1]}))
     P.append(("cell-in-loop", V + C + 'for i in 0..2 {\n  Memory m: "signal-M";\n  m.write((v + i) | "signal-M", when=c > i);\n'
               '  Entity l = place("small-lamp", i * 2, 0);\n  l.enable = m.read() > 6;\n}\n', {"v": [5, 9], "c": [0, 1, 2]}))
     return P
@@ -485,6 +494,8 @@ def c04_scope(tier):
     P.append(("reader-before-write", M + "Signal dbl = m.read() * 2;\nm.write(m.read() + 2);\nSignal out = m.read();\n", [{}], 0))
     P.append(("reader-adds-same-type", 'Signal k = ("signal-K", 2);\n' + M + 'Signal off = (k * 2) | "signal-M";\nm.write((m.read() + 3) % 7);\n'
               "Signal out = m.read();\nSignal shown = m.read() + off;\n", [{"k": 2}], 0))
+    P.append(("read-on-right", M + "m.write((1 + m.read()) % 10);\nSignal out = m.read();\n", [{}], 0))
+    P.append(("read-on-right-input", 'Signal x = ("signal-X", 100);\n' + M + 'm.write(((x | "signal-M") - m.read()) % 7);\nSignal out = m.read();\n', [{"x": 100}, {"x": 3}], 2))
     P.append(("untyped", "Memory m;\nm.write(m.read() + 1);\nSignal out = m.read();\n", [{}], 0))
     P.append(("times-const", 'Signal x = ("signal-X", 3);\n' + M + "m.write((m.read() * 2 + x) % 1000);\nSignal out = m.read();\n", [{"x": 3}, {"x": 7}], 2))
     return P
